@@ -1,3 +1,4 @@
+pub mod alloc_count;
 pub mod app;
 pub mod asyncsim;
 pub mod cfg;
@@ -10,3 +11,6 @@ pub mod simnet;
 pub mod spec;
 pub mod tls;
 pub mod wire;
+
+#[global_allocator]
+static GLOBAL: alloc_count::Counting = alloc_count::Counting;
